@@ -121,7 +121,7 @@ class Hist:
         op = rng.choice(['create', 'create', 'add_new', 'add_ents', 'remove', 'remove_method', 'set_class', 'set_name',
                          'set_name', 'del_name', 'update', 'pop', 'setdefault', 'clear', 'make_unique', 'copy_same',
                          'copy_other', 'iter_mutate', 'search_mutate', 'reclass_world', 'name_world', 'reparse',
-                         'readd', 'del_other', 'set_other', 'remove_again'])
+                         'readd', 'del_other', 'set_other', 'remove_again', 'pop_world'])
         from srctools.vmf import Entity
         try:
             if op == 'create':
@@ -213,9 +213,14 @@ class Hist:
                 e = self.any_ent(vmf, True)
                 if e is None:
                     return
-                k = rng.choice(KEY_NAME + ['origin'])
-                self.log.append(f'pop map{mi} {k} (name was {e["targetname"]!r}, in_map={e in vmf.entities})')
-                e.pop(k)
+                k = rng.choice(KEY_NAME + ['origin'] + KEY_CLASS)
+                self.log.append(f'pop map{mi} {k} (name was {e["targetname"]!r}, class {e["classname"]!r}, in_map={e in vmf.entities})')
+                try:
+                    # popping the classname is refused like deleting it; whatever the outcome, the indexes must agree
+                    # with what the entity reports afterwards
+                    e.pop(k) if rng.random() < 0.6 else e.pop(k, 'dflt')
+                except KeyError:
+                    self.log[-1] += ' -> KeyError'
                 self.nontrivial = True
             elif op == 'setdefault':
                 e = self.any_ent(vmf)
@@ -286,6 +291,23 @@ class Hist:
                     pass
                 if vmf.spawn['classname'].casefold() != 'worldspawn':
                     self.fail(f'worldspawn was given the class {vmf.spawn["classname"]!r}', 'worldspawn-reclassed')
+            elif op == 'pop_world':
+                k = rng.choice(KEY_CLASS + KEY_NAME)
+                self.log.append(f'worldspawn pop/del/clear of {k} map{mi}')
+                try:
+                    r = rng.random()
+                    if r < 0.4:
+                        vmf.spawn.pop(k, 'd')
+                    elif r < 0.7:
+                        del vmf.spawn[k]
+                    elif r < 0.85:
+                        vmf.spawn.setdefault(k, 'func_detail')
+                    else:
+                        vmf.spawn.update({k: 'worldspawn' if k in KEY_CLASS else 'named'})
+                except (KeyError, ValueError):
+                    pass
+                if vmf.spawn['classname'].casefold() != 'worldspawn':
+                    self.fail(f'worldspawn now reports the class {vmf.spawn["classname"]!r}', 'worldspawn-reclassed')
             elif op == 'name_world':
                 self.log.append(f'worldspawn targetname set/deleted map{mi}')
                 vmf.spawn['targetname'] = rng.choice(NAMES)
